@@ -39,6 +39,12 @@ var consumerTable = map[string][]string{
 }
 
 func init() {
+	register(&core.Rule{ID: "W5e", Min: 20,
+		Doc: "W5 restricted to the encoder option word (alg.Bit*): each bit keeps its consumers in the x86 emitter, the VM and the shared primitives, and every bit tested by one executor is tested by the other.",
+		Run: func(c *core.Ctx) { runW5f(c, "Bit") }})
+	register(&core.Rule{ID: "W5d", Min: 20,
+		Doc: "W5 restricted to the decoder option word (consts.F_*): each bit keeps its consumers in jitdec and optdec, and every bit tested by one decoder implementation is tested by the other.",
+		Run: func(c *core.Ctx) { runW5f(c, "F_") }})
 	register(&core.Rule{ID: "W5", Min: 40,
 		Doc: "Consumer parity: for every canonical option bit, each consumer function of the frozen table (x86 emitter handler, VM arm, shared Go primitive or post-pass, in both executors of the same IR) still references that bit (by object, through aliases). A consumer that disappears or is re-pointed to another bit is a dropped/crossed wire below the API layer.",
 		Run: runW5})
@@ -90,14 +96,29 @@ func bitUses(c *core.Ctx) map[string]map[string][]token.Pos {
 	return out
 }
 
-func runW5(c *core.Ctx) {
+func runW5(c *core.Ctx) { runW5f(c, "") }
+
+// runW5f evaluates W5 restricted to bits whose name starts with prefix ("Bit": encoder word, "F_": decoder word).
+func runW5f(c *core.Ctx, prefix string) {
 	uses := bitUses(c)
+	if prefix != "" {
+		f := map[string]map[string][]token.Pos{}
+		for b, m := range uses {
+			if strings.HasPrefix(b, prefix) {
+				f[b] = m
+			}
+		}
+		uses = f
+	}
 	var bits []string
 	for b := range consumerTable {
 		bits = append(bits, b)
 	}
 	sort.Strings(bits)
 	for _, b := range bits {
+		if !strings.HasPrefix(b, prefix) {
+			continue
+		}
 		for _, fn := range consumerTable[b] {
 			cn := b + "@" + fn
 			ps := uses[b][fn]
@@ -124,6 +145,9 @@ func runW5(c *core.Ctx) {
 		return token.NoPos, false
 	}
 	for _, b := range []string{"F_use_int64", "F_use_number", "F_disable_urc", "F_disable_unknown", "F_copy_string", "F_validate_string", "F_case_sensitive"} {
+		if !strings.HasPrefix(b, prefix) {
+			continue
+		}
 		for _, rel := range []string{"internal/decoder/jitdec", "internal/decoder/optdec"} {
 			pos, ok := inPkg(b, rel)
 			if ok {
@@ -134,6 +158,9 @@ func runW5(c *core.Ctx) {
 		}
 	}
 	for _, b := range []string{"BitSortMapKeys", "BitNoNullSliceOrMap", "BitEncodeNullForInfOrNan", "BitPointerValue"} {
+		if !strings.HasPrefix(b, prefix) {
+			continue
+		}
 		for _, rel := range []string{"internal/encoder/x86", "internal/encoder/vm"} {
 			pos, ok := inPkg(b, rel)
 			if ok {
